@@ -1211,6 +1211,27 @@ def build_inputs(ck, rundir, quick):
             for t in (("bas1r", "bas0", "bas1s") if quick else ("bas0", "bas1", "bas0r", "bas1r", "bas1c", "bas0s", "bas1s", "bas1rs", "bas1cs")):
                 add("t%d-%s.bas" % (nt, t), t, d, "bas-tall:%d-xlines" % nx, tall)
                 nt += 1
+    # 4c. basis files for LPs whose column / row number is one of the sizes in DataHashTable's prime table (read from the header): the default
+    #     name sets readBasis builds (no names given) then have exactly that many slots - the probing step must not be a multiple of it
+    primes = []
+    try:
+        import re as _re
+        primes = [int(x) for x in _re.findall(r"primes\[\d+\]\s*=\s*(\d+)\s*;", open(os.path.join(vlib.REPO, "src", "soplex", "datahashtable.h")).read())]
+    except OSError:
+        pass
+    for pk, pr in enumerate(primes[:2] if quick else primes[:4]):
+        for shape in ("cols", "rows"):
+            name = "prime%d%s.mps" % (pr, shape)
+            pth = os.path.join(rundir, "in", name)
+            with open(pth, "wb") as f:
+                if shape == "cols":
+                    f.write(b"NAME p\nROWS\n N obj\n L C0\nCOLUMNS\n" + b"".join(b"    x%d obj 1.0 C0 1.0\n" % j for j in range(pr)) + b"RHS\n    rhs C0 10.0\nENDATA\n")
+                else:
+                    f.write(b"NAME p\nROWS\n N obj\n" + b"".join(b" L C%d\n" % i for i in range(pr)) + b"COLUMNS\n" +
+                            b"".join(b"    x0 C%d 1.0\n" % i for i in range(pr)) + b"    x0 obj -1.0\nRHS\n" + b"".join(b"    rhs C%d %d.0\n" % (i, 5 + i % 7) for i in range(pr)) + b"ENDATA\n")
+            d = b"NAME  p\n XU x0        C0\nENDATA\n"
+            for t in ("bas0", "bas1"):
+                add("pr%d%s-%s.bas" % (pr, shape, t), t, d, "bas-prime-size:%s" % shape, pth)
     # 5. settings files
     ns = 25 if quick else 300
     for k in range(ns):
